@@ -69,9 +69,14 @@ _PATH = {'no_lf': set()}
 LF_TEXTS = ('C(0a)', '10', "'\\n'")
 
 
-def implied_atoms(sk, value, out):
+def implied_atoms(sk, value, out=None):
     """Atoms of a decision skeleton whose truth the decision taken FORCES: the atom itself, through `not`, every conjunct of a
-    true `and`, every disjunct of a false `or`.  Nothing is implied by a false `and` / true `or`."""
+    true `and`, every disjunct of a false `or`.  Nothing is implied by a false `and` / true `or`.
+    With `out` the pairs are appended to it; without, the list of (atom, truth) pairs is returned."""
+    if out is None:
+        res = []
+        implied_atoms(sk, value, res)
+        return res
     if sk is None:
         return
     k = sk[0]
